@@ -254,16 +254,21 @@ def t_matching(eng):
     def search(eng_, tpl):
         # the very condition of the statement: the end is closer than 1e-3 of the shortest segment
         pt = cur['pt']
+        if len(tpl) == 2 and isinstance(tpl[1], tuple):
+            tpl = tpl[0]            # the loop may run over .items(): (key, value)
         return r_cmp('<=', B.sqrt_real(eng_, dist2(pt, tpl)), tol)
     sp = LoopSpec([], None, P + '.match.search', [])
     sp.search = search
-    sp.on_found = lambda e_, elem, i: cur.update(matched=elem, matched_for=cur['n1'])
+    sp.on_found = lambda e_, elem, i: cur.update(matched=(elem[0] if len(elem) == 2 and isinstance(elem[1], tuple) else elem),
+                                                 matched_for=cur['n1'])
     eng.loop_specs[(Q, loops.index(inner))] = sp
     env = {'self': me, 'parent': c.parent}
     # run the outer loop one end at a time so that obligations can name the end
     eng.frames.append({'fref': eng.fref(Q), 'env': env, 'qual': Q, 'node': f})
     try:
-        for n1, pt in ((0, p1), (1, p2)):
+        # one end per run, each against an arbitrary dictionary (the state the other end leaves behind is one of them)
+        which = eng.choose(2)
+        for n1, pt in (((0, p1), (1, p2))[which],):
             cur['pt'] = tuple(pt.data)
             cur['n1'] = n1
             ncalls = len(calls)
